@@ -91,6 +91,13 @@ type node struct {
 	// hostileLayout: some served commits are not laid out one slot per validator (repeated / foreign signatures). The
 	// property does not say whether such a header must be accepted, so nothing is REQUIRED of the client about them.
 	hostileLayout bool
+	// raw: the node hands out its light blocks as they are, without the ValidateBasic / height check that
+	// light/provider/http and light/provider/mock happen to run (the Provider interface does not promise it)
+	raw bool
+	// firstAnswer[h]: what the node returns the FIRST time height h is requested; every later request for h gets
+	// blocks[h] (a provider that does not answer the same question the same way twice)
+	firstAnswer map[int64]*types.LightBlock
+	askedOnce   map[int64]bool
 }
 
 func (n *node) String() string  { return fmt.Sprintf("node%d(%s)", n.id, n.kind) }
@@ -100,6 +107,11 @@ func (n *node) ChainID() string { return n.chainID }
 func (n *node) static(lo, hi int64) bool {
 	if n.errAll != nil || n.silentAfter >= 0 || n.catchUp > 0 || n.hostileLayout {
 		return false
+	}
+	for h := range n.firstAnswer {
+		if h >= lo && h <= hi {
+			return false
+		}
 	}
 	for h := range n.errAt {
 		if h >= lo && h <= hi {
@@ -120,6 +132,9 @@ func (n *node) view(h int64) *types.LightBlock {
 	}
 	if n.servable == nil {
 		n.servable = map[int64]bool{}
+	}
+	if n.raw {
+		return b
 	}
 	ok, seen := n.servable[h]
 	if !seen {
@@ -157,12 +172,22 @@ func (n *node) answer(h int64) (*types.LightBlock, error) {
 		return nil, provider.ErrHeightTooHigh
 	}
 	b := n.blocks[hh]
+	if fa, ok := n.firstAnswer[hh]; ok && !n.askedOnce[hh] {
+		if n.askedOnce == nil {
+			n.askedOnce = map[int64]bool{}
+		}
+		n.askedOnce[hh] = true
+		b = fa
+	}
 	if b == nil {
 		return nil, provider.ErrLightBlockNotFound
 	}
 	// provider contract (light/provider/http): height must be the requested one, block must pass ValidateBasic
 	if b.SignedHeader == nil || b.Header == nil {
 		return nil, provider.ErrBadLightBlock{Reason: fmt.Errorf("missing header")}
+	}
+	if n.raw {
+		return b, nil
 	}
 	if h != 0 && b.Height != h {
 		return nil, provider.ErrBadLightBlock{Reason: fmt.Errorf("height %d responded doesn't match height %d requested", b.Height, h)}
